@@ -28,6 +28,7 @@ type exprEnv struct {
 	pkg    *ssa.Package
 	vars   map[string]typedTerm
 	result []typedTerm
+	args   []typedTerm // positional parameters (arg0 = receiver)
 	err    string
 	idxTerms []Term // index terms seen (candidates for quantifier patterns)
 	triggers [][]Term // explicit trigger(...) groups of the quantifier being translated
@@ -155,6 +156,11 @@ func (env *exprEnv) tr(x *Expr) typedTerm {
 	case "ident":
 		if v, ok := env.vars[x.name]; ok {
 			return v
+		}
+		if strings.HasPrefix(x.name, "arg") && env.args != nil {
+			if i, err := strconv.Atoi(x.name[3:]); err == nil && i < len(env.args) {
+				return env.args[i]
+			}
 		}
 		if x.name == "result" && len(env.result) > 0 {
 			return env.result[0]
